@@ -13,7 +13,7 @@ Open Scope Z_scope.
 (* at every interruption point the manifest lists only utterances whose feature
    file is complete and is the file of an uninterrupted run *)
 Theorem manifest_only_complete : forall seed es d u,
-  NoDup (map fst es) -> ids_stable tool es -> reach tool seed es d -> In u (d_manifest d) ->
+  NoDup (map fst es) -> reach tool seed es d -> In u (d_manifest d) ->
   exists f, good_of seed es u = Some f /\ file_at (d_files d) u = Some (Complete f).
 Proof. exact manifest_only_complete_l. Qed.
 Print Assumptions manifest_only_complete.
@@ -21,13 +21,13 @@ Print Assumptions manifest_only_complete.
 (* every file in the directory belongs to a map entry and is either a torn
    write or the right content *)
 Theorem files_partial_or_right : forall seed es d u st,
-  NoDup (map fst es) -> ids_stable tool es -> reach tool seed es d -> file_at (d_files d) u = Some st ->
+  NoDup (map fst es) -> reach tool seed es d -> file_at (d_files d) u = Some st ->
   exists f, good_of seed es u = Some f /\ (st = Partial \/ st = Complete f).
 Proof. exact files_partial_or_right_l. Qed.
 Print Assumptions files_partial_or_right.
 
 Theorem manifest_no_duplicates : forall seed es d,
-  NoDup (map fst es) -> ids_stable tool es -> reach tool seed es d -> NoDup (d_manifest d).
+  NoDup (map fst es) -> reach tool seed es d -> NoDup (d_manifest d).
 Proof. exact manifest_no_duplicates_l. Qed.
 Print Assumptions manifest_no_duplicates.
 
@@ -40,6 +40,15 @@ Theorem manifest_complete_but_in_flight : forall seed es wk d sched n k u,
 Proof. exact manifest_complete_but_in_flight_l. Qed.
 Print Assumptions manifest_complete_but_in_flight.
 
+(* exactly: one invocation appends to the manifest the utterances it completed,
+   in order, all of them or all but the last *)
+Theorem manifest_exact : forall seed es wk d sched n k,
+  valid_sched tool seed es wk d sched ->
+  exists l, d_manifest (crash tool d sched n k) = d_manifest d ++ l /\
+            (l = completed (firstn n sched) \/ l = removelast (completed (firstn n sched))).
+Proof. exact manifest_exact_tl. Qed.
+Print Assumptions manifest_exact.
+
 Theorem manifest_never_shrinks : forall d sched n k,
   incl (d_manifest d) (d_manifest (crash tool d sched n k)).
 Proof. exact manifest_never_shrinks_l. Qed.
@@ -49,14 +58,14 @@ Print Assumptions manifest_never_shrinks.
    leaves exactly the files of an uninterrupted run (same bytes: same symbolic
    feature, including the seed that drives dithering) *)
 Theorem resumed_run_final_files : forall seed es wk d sched n k u,
-  NoDup (map fst es) -> ids_stable tool es -> reach tool seed es d ->
+  NoDup (map fst es) -> reach tool seed es d ->
   valid_sched tool seed es wk d sched -> (length sched <= n)%nat ->
   file_at (d_files (crash tool d sched n k)) u = option_map Complete (good_of seed es u).
 Proof. exact resumed_run_final_files_l. Qed.
 Print Assumptions resumed_run_final_files.
 
 Theorem resume_identical_to_uninterrupted : forall seed es d wk sched n k wk' sched' n' k',
-  NoDup (map fst es) -> ids_stable tool es -> reach tool seed es d ->
+  NoDup (map fst es) -> reach tool seed es d ->
   valid_sched tool seed es wk d sched -> (length sched <= n)%nat ->
   valid_sched tool seed es wk' disk0 sched' -> (length sched' <= n')%nat ->
   same_dir (crash tool d sched n k) (crash tool disk0 sched' n' k').
@@ -64,22 +73,31 @@ Proof. exact resume_identical_to_uninterrupted_l. Qed.
 Print Assumptions resume_identical_to_uninterrupted.
 
 Theorem resumed_run_final_manifest : forall seed es wk d sched n k u,
-  NoDup (map fst es) -> ids_stable tool es -> reach tool seed es d ->
+  NoDup (map fst es) -> reach tool seed es d ->
   valid_sched tool seed es wk d sched -> (length sched <= n)%nat ->
   (In u (d_manifest (crash tool d sched n k)) <-> In u (map fst es)).
 Proof. exact resumed_run_final_manifest_l. Qed.
 Print Assumptions resumed_run_final_manifest.
 
+(* once every utterance is listed, running the command again (killed or not)
+   leaves directory and manifest exactly as they are *)
+Theorem rerun_is_noop : forall seed es wk d sched n k,
+  valid_sched tool seed es wk d sched ->
+  (forall u, In u (map fst es) -> In u (d_manifest d)) ->
+  crash tool d sched n k = d.
+Proof. exact rerun_noop_tl. Qed.
+Print Assumptions rerun_is_noop.
+
 (* across ANY number of interrupted runs the manifest is a prefix of the map
    order and at most one existing file (torn or complete) is not listed *)
 Theorem manifest_is_map_prefix : forall seed es d,
-  NoDup (map fst es) -> ids_stable tool es -> reach tool seed es d ->
+  NoDup (map fst es) -> reach tool seed es d ->
   exists j, d_manifest d = firstn j (map fst es).
 Proof. exact manifest_is_map_prefix_tl. Qed.
 Print Assumptions manifest_is_map_prefix.
 
 Theorem at_most_one_unlisted : forall seed es d u v,
-  NoDup (map fst es) -> ids_stable tool es -> reach tool seed es d ->
+  NoDup (map fst es) -> reach tool seed es d ->
   file_at (d_files d) u <> None -> file_at (d_files d) v <> None ->
   ~ In u (d_manifest d) -> ~ In v (d_manifest d) -> u = v.
 Proof. exact at_most_one_unlisted_tl. Qed.
@@ -89,7 +107,7 @@ Print Assumptions at_most_one_unlisted.
    rewritten, and their files are untouched at every point of the run; from any
    state d whatsoever *)
 Theorem listed_not_recomputed_nor_rewritten : forall seed es wk d sched n u,
-  valid_sched tool seed es wk d sched -> In u (d_manifest d) -> 0 <= u ->
+  valid_sched tool seed es wk d sched -> In u (d_manifest d) ->
   ~ In u (s_computed (crash_state tool d sched n)) /\
   ~ In u (s_saved (crash_state tool d sched n)) /\
   file_at (d_files (s_disk (crash_state tool d sched n))) u = file_at (d_files d) u.
@@ -175,9 +193,11 @@ Theorem unfiltered_work_list_rewrites_refuted :
 Proof. exact unfiltered_work_list_rewrites_l. Qed.
 Print Assumptions unfiltered_work_list_rewrites_refuted.
 
-(* FINDING (current code): manifest lines are normalised with str.strip(); an id
-   that ends in a whitespace character other than " " is read back as another
-   id.  [ids_stable] above excludes such ids; without it the property fails. *)
+(* FINDING fixed by 7cfe6bc: while manifest lines were normalised with
+   str.strip(), an id that ends in a whitespace character other than " " (encoded
+   as a negative id) was read back as another id.  The theorems above hold for
+   ALL ids because [tool] matches lines verbatim ([tool_stable]); with StripAll
+   they need [ids_stable] and fail without it: *)
 Theorem whitespace_id_resume_differs_refuted :
   exists seed es h, NoDup (map fst es) /\
     ~ same_dir (full_run cfg_strip_all seed es wk0 (after_hist cfg_strip_all seed es disk0 h))
